@@ -652,3 +652,25 @@ pub proof fn lemma_mount_dm_keeps_other_keys(recs: Seq<RecV>, d: DMap, k: SpanId
         assert(recs[recs.len() - 1].span_id != k);
     }
 }
+
+// ---------------------------------------------------------------------------
+// C09, "the only effect is that span sets submitted by that thread while it was full may be
+// missing": a trace whose StartCollect was lost on a full queue (default configuration) still has
+// its later attachments delivered on their spans.  NOT PROVABLE, and rightly so: without an entry
+// for the trace every later submission takes the stale path, where each collection is post-processed
+// ALONE against an empty map (ph_stale_out): the record of a span and an event submitted for it
+// never meet, for the whole life of the trace and however empty the queues are by then
+// (findings/hunt/C/lost_start_drops_events.rs: root and child delivered with no events and no
+// properties).  Known finding D16.
+// ---------------------------------------------------------------------------
+pub proof fn thm_c09_attachments_of_a_trace_whose_start_was_lost_reach_their_span(span: RawSpan, ev: RawSpan, t: TraceId, p: SpanId, a: Anchor)
+    requires span.raw_kind == RawKind::Span, ev.raw_kind == RawKind::Event,
+    ensures
+        ({
+            let out = ph_stale_out(seq![
+                CollV { set: SpanSet::Span(span), trace_id: t, parent_id: p },
+                CollV { set: SpanSet::Span(ev), trace_id: t, parent_id: span.id }], a);
+            out.len() == 1 && out[0].events.len() == 1
+        }),
+{
+}
